@@ -21,6 +21,7 @@ import common
 from common import hexb
 
 LEVEL = "proof"
+warnings.filterwarnings("ignore")
 
 TYPES = ["i1", "i2", "i4", "u1", "u2", "u4", "f4", "f8", "S1"]
 DAP_OF = {"i1": "Int16", "i2": "Int16", "i4": "Int32", "u1": "Byte", "u2": "UInt16", "u4": "UInt32", "f4": "Float32",
@@ -105,9 +106,7 @@ def gen_netcdf(rng, path, shadow_bias=0.6):
                 dims = (coord_of,)
             else:
                 rank = rng.choice([0, 1, 1, 2, 2, 3])
-                dims = tuple(rng.choice(visible) for _ in range(rank)) if visible else ()
-                # an unlimited dimension must come first and only once for simple writes
-                dims = tuple(dict.fromkeys(dims))
+                dims = tuple(rng.sample(visible, min(rank, len(visible))))
             kw = {}
             if ty != "S1" and rng.random() < 0.35:
                 kw["fill_value"] = {"f": -999.0}.get(ty[0], 7)
@@ -493,7 +492,7 @@ def check_netcdf(ctx, rng, idx, tmp, cases, lazy_cases, search=False):
 
             def lib(np_key):
                 with netCDF4.Dataset(path, "r") as s2:
-                    s2.set_auto_scale(False)
+                    s2.set_auto_maskandscale(False)
                     try:
                         a = np.asarray(s2[vid][np_key])
                         return "(ok (%s) (%s))" % (" ".join(map(str, a.shape)), " ".join(map(str, bits(a))))
@@ -671,6 +670,8 @@ def run(ctx):
                        "rejects fully-qualified dimension names, DESIGN section 9 #20)"]
     ctx.proof_phase()
     explore(ctx, ctx.tier)
+    from collections import Counter
+    ctx.extra["oracle_failure_kinds"] = dict(Counter(f["what"] for f in ctx.oracle_failures))
     return ctx.finish(search=lambda c: explore(c, "quick", search=True))
 
 
